@@ -10,6 +10,7 @@ PROP = dict(
     ],
     partial="childrenMu locking is not modelled (a seed is owned by one goroutine at a time except inside archive(), see C01); "
             "re-parenting an existing child through AddChild is not modelled (the stages only add new items).",
-    assumptions=["node ids are unique (UUIDs); the model addresses nodes by id where Go uses pointers - the driver checks the pointer side after every op"],
-    level_text="Theorems by structural induction over item trees and induction over operation sequences; the model is replayed against the real models.Item API after every operation (pipeline-shaped and arbitrary sequences, plus every tree of <= 3 nodes (quick) / <= 4 nodes (thorough) with every status assignment). 'Exactly one node per URL after de-duplication' is proved for every tree with unique ids (C11_dedupe_unique_all) and monitored at every DedupeItems call whose input tree has unique ids, pipeline-shaped or not; 'no URL lost' holds and is monitored in the pipeline state only.",
+    assumptions=["a URL of the model is the canonical text URL.String() (what is requested, seenchecked, fetched), not URL.Raw: 'one node per URL' is one node per String(); the drivers write one URL id in up to four different Raw spellings with one common String() (checked at start-up, the driver exits non-zero otherwise) and report a node's URL from String() only",
+                 "node ids are unique (UUIDs); the model addresses nodes by id where Go uses pointers - the driver checks the pointer side after every op"],
+    level_text="Theorems by structural induction over item trees and induction over operation sequences; the model is replayed against the real models.Item API after every operation (pipeline-shaped and arbitrary sequences, plus every tree of <= 3 nodes (quick) / <= 4 nodes (thorough) with every status assignment). 'Exactly one node per URL after de-duplication' is proved for every tree with unique ids (C11_dedupe_unique_all) and monitored at every DedupeItems call whose input tree has unique ids, pipeline-shaped or not; 'no URL lost' holds and is monitored in the pipeline state only. URL identity in the model is String() identity: the tree driver writes the URLs of 3 generated cases out of 4 in random Raw spellings (same URL id, same String(), different Raw; tag rawvariants:yes/no in the input distribution), the exhaustive driver writes node j in spelling j mod 4, so de-duplication is exercised on nodes whose Raw differs although they are one URL.",
 )
